@@ -27,13 +27,13 @@ TCoord == Is({"SetCoordSystem","SetCoordView"}) /\ CoordC(C) /\ ObsOK
 TPush  == Is({"Push"}) /\ DoPush /\ ObsOK
 TPop   == Is({"Pop"}) /\ DoPop /\ ObsOK
 TZ     == Is({"SetZIndex"}) /\ ZC(Ev.a[1]) /\ ObsOK
-TDraw  == Is({"DrawPath","DrawText","DrawImage","Fill","Stroke","FillStroke"}) /\ DrawC(C) /\ ObsOK
+TDraw  == Is({"DrawPath","DrawLine","DrawText","DrawImage","Fill","Stroke","FillStroke"}) /\ DrawC(C) /\ ObsOK
 TCanvas == Is({"CanvasTransform","CanvasClip","CanvasFit"}) /\ CanvasC(C) /\ ObsOK
 TRender == /\ Is({"RenderTo"}) /\ Log(C) /\ UNCHANGED <<st, view, cview, csys, stack, z, layers, W, H>>
            /\ CheckObs => LET r == RenderOrder IN
                  /\ Len(Ev.obs) = Len(r)
                  /\ \A i \in 1..Len(r) : /\ Ev.obs[i].kind = r[i].kind /\ Ev.obs[i].m = r[i].m
-                                         /\ (r[i].kind = "path" => Ev.obs[i].st = r[i].st)
+                                         /\ (r[i].kind \in {"path", "line"} => Ev.obs[i].st = r[i].st)
            /\ (~CheckObs) => PrintT("@@" \o ToJson(Scenario))
 TReset == /\ Is({"RESET"})
           /\ st' = DefaultStyle /\ view' = MId /\ cview' = MId /\ csys' = 0 /\ stack' = <<>> /\ z' = 0
